@@ -36,9 +36,9 @@ theorem inv_reachable (txs : List (List Op)) : C06.Inv (run txs) := inv_foldTxs 
     id that is an entity of neither store is mentioned by no line of the bucket dump: not as a path
     element, key or value, plain or typed.  This covers ids deleted directly, through the child
     store, and by a cascade. -/
-theorem absent_no_trace {s : State} {id : Id} (hi : C06.Inv s) (hc : NoClash id s)
+theorem absent_no_trace {nm : Names} {s : State} {id : Id} (hi : C06.Inv s) (hc : NoClash nm id s)
     (ha : s.a.lookup id = none) (hb : s.b.lookup id = none) :
-    ∀ line, line ∈ Render s → ¬ Mentions id line :=
+    ∀ line, line ∈ Render nm s → ¬ Mentions id line :=
   no_trace_of_absent hi hc ha hb
 
 theorem stepRaw_of_step_ok {s s' : State} {op : Op} (h : step s op = (s', .ok)) : stepRaw s op = .ok s' := by
@@ -48,25 +48,25 @@ theorem stepRaw_of_step_ok {s s' : State} {op : Op} (h : step s op = (s', .ok)) 
   | ok t => simp only [hd] at h; cases h; rfl
 
 /-- **No trace, store A** (also when the delete goes through the child store) -/
-theorem delete_no_trace {s s' : State} {id : Id} (hi : C06.Inv s) (h : step s (.deleteA id) = (s', .ok))
-    (hc : NoClash id s') (hb : s'.b.lookup id = none) :
-    ∀ line, line ∈ Render s' → ¬ Mentions id line := by
+theorem delete_no_trace {nm : Names} {s s' : State} {id : Id} (hi : C06.Inv s) (h : step s (.deleteA id) = (s', .ok))
+    (hc : NoClash nm id s') (hb : s'.b.lookup id = none) :
+    ∀ line, line ∈ Render nm s' → ¬ Mentions id line := by
   have hraw : deleteATop s id = .ok s' := stepRaw_of_step_ok h
   exact no_trace_of_absent (inv_deleteA hi hraw) hc (deleteA_absent hi hraw).1 hb
 
 /-- **No trace, store B** -/
-theorem delete_no_trace_owner {s s' : State} {id : Id} (hi : C06.Inv s) (h : step s (.deleteB id) = (s', .ok))
-    (hc : NoClash id s') (ha : s'.a.lookup id = none) :
-    ∀ line, line ∈ Render s' → ¬ Mentions id line := by
+theorem delete_no_trace_owner {nm : Names} {s s' : State} {id : Id} (hi : C06.Inv s) (h : step s (.deleteB id) = (s', .ok))
+    (hc : NoClash nm id s') (ha : s'.a.lookup id = none) :
+    ∀ line, line ∈ Render nm s' → ¬ Mentions id line := by
   have hraw : deleteB s id = .ok s' := stepRaw_of_step_ok h
   exact no_trace_of_absent (inv_deleteB hi hraw) hc ha (deleteB_absent hraw)
 
 /-- **No trace, cascade.**  The dependants of a deleted owner (entities whose `dep` names it) are
     gone after the delete, and nothing mentions them either. -/
-theorem cascade_no_trace {s s' : State} {id j : Id} {e : EntA} (hi : C06.Inv s)
+theorem cascade_no_trace {nm : Names} {s s' : State} {id j : Id} {e : EntA} (hi : C06.Inv s)
     (h : step s (.deleteB id) = (s', .ok)) (hj : s.a.lookup j = some e) (hd : e.dep.getD [] = id)
-    (hc : NoClash j s') (hb : s'.b.lookup j = none) :
-    s'.a.lookup j = none ∧ ∀ line, line ∈ Render s' → ¬ Mentions j line := by
+    (hc : NoClash nm j s') (hb : s'.b.lookup j = none) :
+    s'.a.lookup j = none ∧ ∀ line, line ∈ Render nm s' → ¬ Mentions j line := by
   have hraw : deleteB s id = .ok s' := stepRaw_of_step_ok h
   obtain ⟨_, eb, s1, _, _, hcas, rfl⟩ := deleteB_ok hraw
   obtain ⟨_, _, _, _, _, _, cgone⟩ := deleteAll_spec (core_congr_uLabel hi.toInvCore _)
@@ -77,9 +77,9 @@ theorem cascade_no_trace {s s' : State} {id j : Id} {e : EntA} (hi : C06.Inv s)
 /-- **No trace, self-reference cascade.**  Every transitive referrer of the deleted entity through
     `boss` (`Reports`: one or more steps, cycles included) is removed by the delete, and no line of
     the dump mentions it afterwards. -/
-theorem boss_cascade_no_trace {s s' : State} {id j : Id} (hi : C06.Inv s) (h : step s (.deleteA id) = (s', .ok))
-    (hr : Reports s id j) (hc : NoClash j s') (hb : s'.b.lookup j = none) :
-    s'.a.lookup j = none ∧ ∀ line, line ∈ Render s' → ¬ Mentions j line := by
+theorem boss_cascade_no_trace {nm : Names} {s s' : State} {id j : Id} (hi : C06.Inv s) (h : step s (.deleteA id) = (s', .ok))
+    (hr : Reports s id j) (hc : NoClash nm j s') (hb : s'.b.lookup j = none) :
+    s'.a.lookup j = none ∧ ∀ line, line ∈ Render nm s' → ¬ Mentions j line := by
   have hraw : deleteATop s id = .ok s' := stepRaw_of_step_ok h
   have hgone := boss_cascade_removes hi hraw hr
   exact ⟨hgone, no_trace_of_absent (inv_deleteA hi hraw) hc hgone hb⟩
@@ -93,10 +93,10 @@ theorem delete_terminates {s : State} (id : Id) (hi : C06.Inv s) : stepRaw s (.d
 
 /-- **Whatever a committed transaction removed** — by a direct delete, through a child store, or by
     any cascade, anywhere in the transaction — is mentioned by no line of the dump afterwards. -/
-theorem tx_removed_no_trace {s : State} (ops : List Op) {j : Id} (hi : C06.Inv s)
+theorem tx_removed_no_trace {nm : Names} {s : State} (ops : List Op) {j : Id} (hi : C06.Inv s)
     (ha : (txStep s ops).1.a.lookup j = none) (hb : (txStep s ops).1.b.lookup j = none)
-    (hc : NoClash j (txStep s ops).1) :
-    ∀ line, line ∈ Render (txStep s ops).1 → ¬ Mentions j line :=
+    (hc : NoClash nm j (txStep s ops).1) :
+    ∀ line, line ∈ Render nm (txStep s ops).1 → ¬ Mentions j line :=
   no_trace_of_absent (inv_txStep ops hi) hc ha hb
 
 /-- after the delete the id is gone from every index, back-reference, link and ref-count map -/
@@ -110,7 +110,10 @@ theorem delete_forgets {s s' : State} {id : Id} (hi : C06.Inv s) (h : stepRaw s 
     (∀ b, cnt s'.rc.bwd b id = none) ∧ (∀ j, cnt s'.rc.fwd j id = none) ∧
     s'.g.fwd.lookup id = none ∧ s'.g.bwd.lookup id = none ∧ s'.p.fwd.lookup id = none ∧ s'.p.bwd.lookup id = none ∧
     s'.rc.fwd.lookup id = none ∧ s'.rc.bwd.lookup id = none ∧ s'.thg.lookup id = none ∧
-    (∀ v, s'.uColour.lookup v ≠ some id) := by
+    (∀ v, s'.uColour.lookup v ≠ some id) ∧
+    s'.pe.lookup id = none ∧ (∀ j, id ∉ (s'.pe.lookup j).getD []) ∧
+    s'.mt.fwd.lookup id = none ∧ s'.mt.bwd.lookup id = none ∧
+    (∀ j, id ∉ (s'.mt.fwd.lookup j).getD []) ∧ (∀ j, id ∉ (s'.mt.bwd.lookup j).getD []) := by
   have h' : deleteATop s id = .ok s' := h
   obtain ⟨h1, h2⟩ := deleteA_absent hi h'
   exact absent_everywhere (inv_deleteA hi h') h1 (by rw [h2]; exact hb)
@@ -127,14 +130,16 @@ theorem recreate_fresh {s s' s'' : State} {id : Id} {v : ValsA} (hi : C06.Inv s)
     (∀ w, s''.uCode.lookup w ≠ some id) ∧
     (∀ w, id ∈ (s''.sRoles.lookup w).getD [] ↔ w ∈ setOf v.roles) ∧
     (∀ b, id ∈ (s''.thg.lookup b).getD [] ↔ (b ≠ [] ∧ v.owner.getD [] = b)) ∧
-    (∀ b, cnt s''.rc.bwd b id = none) ∧ s''.p.fwd.lookup id = none ∧ (∀ w, s''.uColour.lookup w ≠ some id) := by
+    (∀ b, cnt s''.rc.bwd b id = none) ∧ s''.p.fwd.lookup id = none ∧ (∀ w, s''.uColour.lookup w ≠ some id) ∧
+    s''.pe.lookup id = none ∧ s''.mt.fwd.lookup id = none ∧ s''.mt.bwd.lookup id = none := by
   have hd' : deleteATop s id = .ok s' := hd
   have hc' : createA s' id v = .ok s'' := hc
   have hi' := inv_deleteA hi hd'
   have hi'' := inv_createA hi' hc'
   have hent : s''.a.lookup id = some ⟨v.name, v.alias, setOf v.roles, v.owner, v.dep, v.boss, none, none⟩ := by
     rw [(createA_entity hc').1]; simp
-  refine ⟨hi'', hent, ?_, ?_, ?_, ?_, ?_, ?_, ?_, ?_⟩
+  have habs := absent_everywhere hi' (deleteA_absent hi hd').1 (by rw [(deleteA_absent hi hd').2]; exact hb)
+  refine ⟨hi'', hent, ?_, ?_, ?_, ?_, ?_, ?_, ?_, ?_, ?_, ?_, ?_⟩
   · intro w
     constructor
     · intro h; obtain ⟨_, e, he, rfl⟩ := (hi''.uName w id).1 h; rw [hent] at he; cases he; rfl
@@ -160,6 +165,9 @@ theorem recreate_fresh {s s' s'' : State} {id : Id} {v : ValsA} (hi : C06.Inv s)
     | none => rfl
     | some l => have := hi''.p.fwdDom id l hl; simp [State.cEx, hent] at this
   · intro w h; obtain ⟨hne, e, he, hw⟩ := (hi''.uColour w id).1 h; rw [hent] at he; cases he; exact hne hw.symm
+  · rw [(createA_self hc').1]; exact habs.2.2.2.2.2.2.2.2.2.2.2.2.2.2.2.2.2.2.2.2.1
+  · rw [(createA_self hc').2]; exact habs.2.2.2.2.2.2.2.2.2.2.2.2.2.2.2.2.2.2.2.2.2.2.1
+  · rw [(createA_self hc').2]; exact habs.2.2.2.2.2.2.2.2.2.2.2.2.2.2.2.2.2.2.2.2.2.2.2.1
 
 end StorageModel.Properties.C06
 
@@ -243,7 +251,7 @@ theorem child_create_over_parent_reindexes :
 
 theorem child_create_over_parent_no_trace :
     (step exOver (.deleteA [97])).2 = .ok ∧
-    (Render (step exOver (.deleteA [97])).1).filter (fun l => decide (Mentions [97] l)) = [] := by
+    (Render Names.std (step exOver (.deleteA [97])).1).filter (fun l => decide (Mentions [97] l)) = [] := by
   decide
 
 /-- a ref-counted link with count 3 and a link owned by the child store: both are gone after the delete -/
@@ -252,8 +260,8 @@ def exRc : State := run [[.createB [112] none], [.createA1 [97] vA [122] [[112]]
 
 theorem rc_and_child_links_no_trace :
     cnt exRc.rc.bwd [112] [97] = some 3 ∧ exRc.p.bwd.lookup [112] = some [[97]] ∧
-    (Render exRc).any (fun l => decide (Mentions [97] l)) = true ∧
-    (Render (step exRc (.deleteA [97])).1).filter (fun l => decide (Mentions [97] l)) = [] := by
+    (Render Names.std exRc).any (fun l => decide (Mentions [97] l)) = true ∧
+    (Render Names.std (step exRc (.deleteA [97])).1).filter (fun l => decide (Mentions [97] l)) = [] := by
   decide
 
 /-- a cascading delete: deleting owner q removes its dependant b, and neither id is mentioned afterwards -/
@@ -262,7 +270,7 @@ def exCascade : State := run [[.createB [112] none, .createB [113] none],
 
 theorem cascade_witness :
     (step exCascade (.deleteB [113])).2 = .ok ∧ (step exCascade (.deleteB [113])).1.a.lookup [98] = none ∧
-    (Render (step exCascade (.deleteB [113])).1).filter (fun l => decide (Mentions [98] l) || decide (Mentions [113] l)) = [] := by
+    (Render Names.std (step exCascade (.deleteB [113])).1).filter (fun l => decide (Mentions [98] l) || decide (Mentions [113] l)) = [] := by
   decide
 
 /-- a reference cycle a → b → a with a further referrer c → a and a self reference d → d: deleting a
@@ -276,7 +284,7 @@ theorem cycle_witness :
     (exCycle.a.lookup [97]).map (·.boss) = some (some [98]) ∧ (exCycle.a.lookup [98]).map (·.boss) = some (some [97]) ∧
     (step exCycle (.deleteA [97])).2 = .ok ∧
     Map.keys (step exCycle (.deleteA [97])).1.a = [[100]] ∧
-    (Render (step exCycle (.deleteA [97])).1).filter
+    (Render Names.std (step exCycle (.deleteA [97])).1).filter
       (fun l => decide (Mentions [97] l) || decide (Mentions [98] l) || decide (Mentions [99] l)) = [] ∧
     (step (step exCycle (.deleteA [97])).1 (.deleteA [100])).2 = .ok ∧
     (step (step exCycle (.deleteA [97])).1 (.deleteA [100])).1.a = [] := by
@@ -287,7 +295,7 @@ example : Reports exCycle [97] [99] := .direct (e := ⟨[122], none, [[109]], no
 example : Reports exCycle [97] [97] :=
   .step (k := [98]) (e := ⟨[120], none, [], none, none, some [98], none, none⟩) (by decide) rfl
     (.direct (e := ⟨[121], none, [], none, none, some [97], none, none⟩) (by decide) rfl)
-example : NoClash [99] (step exCycle (.deleteA [97])).1 := noClash_of_check (by decide)
+example : NoClash Names.std [99] (step exCycle (.deleteA [97])).1 := noClash_of_check (by decide)
 
 /-- the extended child store: created through A2 over an existing parent that has A1 data, colour
     and name changed through A2 (old index entries replaced), deleted through A2: nothing is left -/
@@ -300,14 +308,40 @@ theorem extended_child_witness :
     exExt.uName.lookup [120] = some [97] ∧ exExt.uCode.lookup [122] = some [97] ∧ exExt.thg.lookup [112] = some [[97]] ∧
     (exExt.a.lookup [97]).map (·.colour) = some (some [118]) ∧
     (step exExt (.deleteA [97])).2 = .ok ∧
-    (Render (step exExt (.deleteA [97])).1).filter (fun l => decide (Mentions [97] l)) = [] ∧
+    (Render Names.std (step exExt (.deleteA [97])).1).filter (fun l => decide (Mentions [97] l)) = [] ∧
     (step exExt (.updateA2 [98] vA [118] none true)).2 = .err .notFound := by
   decide
 
+/-- store A linked with itself: a is linked to itself and to b and c through `peers` (one symbol) and
+    through `mentors` (two symbols); in ONE transaction a's peers bucket is written and a is deleted:
+    b and c forget a in all three bucket families, nothing mentions a -/
+def exSelf : State := run [[.createA [97] ⟨[120], none, [], none, none, [], none⟩,
+  .createA [98] ⟨[121], none, [], none, none, [], none⟩, .createA [99] ⟨[122], none, [], none, none, [], none⟩],
+  [.addPeers [97] [[97], [98], [99]], .setMentors [97] [[99], [97]], .setMentors [98] [[97]]]]
+
+theorem self_link_witness :
+    exSelf.pe.lookup [97] = some [[97], [98], [99]] ∧ exSelf.pe.lookup [99] = some [[97]] ∧
+    exSelf.mt.bwd.lookup [97] = some [[97], [98]] ∧
+    (txStep exSelf [.removePeers [97] [[98]], .deleteA [97]]).2 = .ok ∧
+    (txStep exSelf [.removePeers [97] [[98]], .deleteA [97]]).1.pe = [([99], []), ([98], [])] ∧
+    (Render Names.std (txStep exSelf [.removePeers [97] [[98]], .deleteA [97]]).1).filter (fun l => decide (Mentions [97] l)) = [] := by
+  decide
+
+/-- the same under the other naming variant of the schema (symbol ≠ stored key for `name` and `alias`):
+    the dump names the index buckets after the symbols and the fields after their keys; nothing mentions
+    the deleted id either -/
+theorem naming_variant_witness :
+    Line.bucket [C03.bU, C03.bIndexes, C03.bThings, [110, 105, 99, 107]] ∈ Render Names.alt exExt ∧
+    Line.kv [C03.bU, C03.bThings, [97]] [110, 109] (C03.typed [120]) ∈ Render Names.alt exExt ∧
+    (Render Names.alt (step exExt (.deleteA [97])).1).filter (fun l => decide (Mentions [97] l)) = [] := by
+  decide
+
+example : NoClash Names.alt [97] (step exExt (.deleteA [97])).1 := noClash_of_check (by decide)
+
 /-- `NoClash` holds in the harness universe: the hypotheses of the no-trace theorems are satisfiable -/
-example : NoClash [97] (step exRc (.deleteA [97])).1 := noClash_of_check (by decide)
+example : NoClash Names.std [97] (step exRc (.deleteA [97])).1 := noClash_of_check (by decide)
 example : (step exRc (.deleteA [97])).1.b.lookup [97] = none := by decide
-example : NoClash [98] (step exCascade (.deleteB [113])).1 := noClash_of_check (by decide)
+example : NoClash Names.std [98] (step exCascade (.deleteB [113])).1 := noClash_of_check (by decide)
 
 end StorageModel.Properties.C06
 
